@@ -48,6 +48,28 @@ def mc(tier, name="backend"):
     info["unrepaired_machine_violates"] = "EmittedOk"
     return pipes, info
 
+def names_mc(tier):
+    """NamesMC: the naming machine of spec/Names.tla (QueryLoader::load, assign_names, RelVarNameAssigner transcribed) on every
+    configuration of the bound; the machines as found (before the repairs of F88 and of F115) must fail."""
+    b = (3, 2) if tier == "quick" else (3, 3)
+    cfg = os.path.join(SPEC, f"NamesMC_{os.getpid()}.cfg")
+    open(cfg, "w").write(f"SPECIFICATION Spec\nCONSTANTS\n  RepairedN88 = TRUE\n  RepairedN115 = TRUE\n  MaxDecls = {b[0]}\n  MaxInsts = {b[1]}\nINVARIANT NamesOk\nCHECK_DEADLOCK FALSE\n")
+    try:
+        out, info = tlc("NamesMC", os.path.basename(cfg), workers=6, xmx="8g")
+    finally:
+        os.remove(cfg)
+    res = {"bound": f"<= {b[0]} table declarations (named t, table_0, table_1 or anonymous; extern or not), <= {b[1]} instances in the first SELECT, <= 1 in a second",
+           "configurations": (info.get("distinct") or 0) // 2, "states": info.get("distinct"), "invariant": "NamesOk", "holds": info["no_error"], "wall_s": info["wall_s"]}
+    if not info["no_error"]:
+        res["error_text"] = info.get("error_text", out[-3000:])
+        return res
+    for c, want in (("NamesMC_u88.cfg", "generated-captures-user-name"), ("NamesMC_u115.cfg", "extern-renamed")):
+        o2, i2 = tlc("NamesMC", c, workers=4)
+        if i2["no_error"] or want not in o2:
+            raise ToolError(f"NamesMC on the machine as found ({c}) no longer reports {want}: the model has gone vacuous")
+    res["machines_as_found_violate"] = {"before F88": "generated-captures-user-name", "before F115": "extern-renamed"}
+    return res
+
 def sort_mc(tier):
     """SortMC: the sort-inference machine of spec/SortInfer.tla (postprocess::infer_sorts transcribed) on every compiled query of
     the bound; the post-processed query must satisfy the Verdict against the Meaning of the query.  The machine as found
@@ -143,7 +165,7 @@ def validate(trace_path):
         open(trace_path + ".tlc.out", "w").write(out)
         raise ToolError("BackendTrace did not consume the trace: " + info.get("error_text", out[-1200:])[:1500])
     c = tuples(out, "COUNTS")[-1]
-    return {"rejects": tuples(out, "REJECT"), "drift": tuples(out, "DRIFT"), "splits": c[1], "selects": c[2], "pres": c[5], "posts": c[6] if len(c) > 6 else 0, "states": info.get("distinct", 0)}
+    return {"rejects": tuples(out, "REJECT"), "drift": tuples(out, "DRIFT"), "splits": c[1], "selects": c[2], "pres": c[5], "posts": c[6] if len(c) > 6 else 0, "names": c[7] if len(c) > 7 else 0, "states": info.get("distinct", 0)}
 
 def run(d, srcs, dialects="all", nsh=8, tag="be"):
     """srcs: [{"id", "src"} | {"id", "rq"}].  -> {"rejects": [...], "drift": [...], counters}"""
@@ -163,7 +185,7 @@ def run(d, srcs, dialects="all", nsh=8, tag="be"):
         return v
     with ThreadPoolExecutor(max_workers=min(8, len(shards) or 1)) as ex:
         results = list(ex.map(one, range(len(shards))))
-    res = {"rejects": [], "drift": [], "splits": 0, "selects": 0, "pres": 0, "posts": 0, "states": 0, "compiled": 0, "errors": 0, "panics": 0}
+    res = {"rejects": [], "drift": [], "splits": 0, "selects": 0, "pres": 0, "posts": 0, "names": 0, "states": 0, "compiled": 0, "errors": 0, "panics": 0}
     import re
     for v in results:
         evs = None
@@ -183,7 +205,7 @@ def run(d, srcs, dialects="all", nsh=8, tag="be"):
                     rec["verdict"] = t[3]
                     rec["pair"] = [int(re.sub(r"\D", "", str(x)) or 0) for x in t[5:7]] if len(t) > 6 else None
                 res[kind].append(rec)
-        for k in ("splits", "selects", "pres", "posts", "states"):
+        for k in ("splits", "selects", "pres", "posts", "names", "states"):
             res[k] += v[k]
         m = re.search(r"(\d+) compiled, (\d+) errors, (\d+) panics", v["pv"])
         if m:
@@ -196,6 +218,10 @@ def describe(rec):
     if e["ev"] == "Pre":
         f = lambda t: (t["cx"] if t["k"] == "Compute" else t["k"]) + ("/" + ",".join(map(str, t["part"])) if t["k"] in ("Take", "DistinctOn") and t["part"] else "")
         return " ".join(f(t) for t in e["input"]) + " => " + " ".join(f(t) for t in e["output"])
+    if e["ev"] == "Names":
+        nm = lambda n: "-" if n == -1 else (f"table_{n}" if n < 100 else e["names"][n - 100])
+        return ("decls " + ", ".join(f"{nm(d['name'])}{'*' if d['extern'] else ''}->{nm(d['out'])}" for d in e["decls"]) + " ; selects "
+                + " | ".join(", ".join(f"{nm(i['alias'])}@{i['src']}->{nm(i['out'])}" for i in sel) for sel in e["selects"]))
     if e["ev"] == "Post":
         f = lambda t: t["k"] + ("[" + ",".join(("-" if k["desc"] else "") + str(k["col"]) for k in t["keys"]) + "]" if t["k"] in ("Sort", "Take") else "") + (f"({t['src']})" if t["k"] in ("From", "Join") and t["src"] >= 0 else "")
         q = lambda x: " ; ".join(f"cte{c['tid']}: " + " | ".join(" ".join(f(t) for t in p) for p in c["pipes"]) for c in x["ctes"]) + " ; main: " + " ".join(f(t) for t in x["main"])
